@@ -90,3 +90,10 @@ func (s *BadgerStore) VerifDBGetRoot(participant string) (*Root, error) {
 func (s *BadgerStore) VerifDBParticipantEvents(participant string, skip int) ([]string, error) {
 	return s.dbParticipantEvents(participant, skip)
 }
+
+// VerifSetTopologicalIndex sets the event's private topologicalIndex (used by the store
+// harness, which writes events to a Store directly, without a Hashgraph).
+func (e *Event) VerifSetTopologicalIndex(i int) { e.topologicalIndex = i }
+
+// VerifInmem exposes the in-memory layer of a BadgerStore.
+func (s *BadgerStore) VerifInmem() *InmemStore { return s.inmemStore }
